@@ -109,6 +109,9 @@ func (r orderedRows) Less(i, j int) bool {
 			if ta < tb {
 				return true
 			}
+			if ta > tb {
+				return false
+			}
 			continue
 		}
 
